@@ -91,7 +91,10 @@ pub fn configs(tier: Tier) -> Vec<Box<dyn Config>> {
         v.push(mk::<TKey, TVal>(Plan::Zero, u, vec![vec![]], None, tier, false, ""));
         v.push(mk::<PKey, PVal>(Plan::Zero, u, vec![vec![]], None, tier, false, ""));
         v.push(mk::<TKey, TVal>(Plan::Seq, if quick { 4 } else { 6 }, vec![vec![]], None, tier, false, ""));
+        // MAX plan: the first element lives in the LAST bucket (guards that walk the buckets must reach it)
+        v.push(mk::<PKey, PVal>(Plan::Max, 30, vec![tombstone_seed(28, 20), tombstone_seed(28, 27)], Some(0), tier, true, "-seeded"));
     } else {
+        v.push(mk::<TKey, TVal>(Plan::Max, if quick { 8 } else { 10 }, vec![vec![]], None, tier, true, ""));
         let u = if quick { 8 } else { 11 };
         v.push(mk::<PKey, PVal>(Plan::Zero, u, vec![vec![]], None, tier, true, ""));
         v.push(mk::<TKey, TVal>(Plan::Zero, u, vec![vec![]], None, tier, true, ""));
